@@ -133,6 +133,10 @@ def project(net, with_results=True, num=None):
                 r["mt"] = limbs(rr["mdot_to_kg_per_s"], MSCALE)
                 r["pf"] = limbs(rr["p_from_bar"], PSCALE)
                 r["pt"] = limbs(rr["p_to_bar"], PSCALE)
+                r["v"] = limbs(rr["v_mean_m_per_s"], 1e9) if "v_mean_m_per_s" in rt.columns else NAN
+                r["vd"] = limbs(rr["vdot_m3_per_s"], 1e12) if "vdot_m3_per_s" in rt.columns else NAN
+                r["tf"] = limbs(rr["t_from_k"], TSCALE)
+                r["tt"] = limbs(rr["t_to_k"], TSCALE)
                 hc = [c for c in rt.columns if c not in THERM_COLS
                       and c not in ("deltat_k", "qext_w", "compr_power_mw")]
                 allc = [float(rr[c]) for c in hc]
@@ -143,7 +147,7 @@ def project(net, with_results=True, num=None):
             else:
                 r["hyd"] = r["th"] = r["hydall"] = "nores"
                 r["mixsig"] = ""
-                r["mf"] = r["mt"] = r["pf"] = r["pt"] = NORES
+                r["mf"] = r["mt"] = r["pf"] = r["pt"] = r["v"] = r["vd"] = r["tf"] = r["tt"] = NORES
             an["E"].append(r)
     for tbl in NODE_EL_TABLES:
         if tbl not in net or not isinstance(net[tbl], pd.DataFrame):
